@@ -10,6 +10,7 @@ package multiplex
 import (
 	"fmt"
 	"io"
+	"net"
 	"runtime"
 	"sync"
 	"sync/atomic"
@@ -114,4 +115,77 @@ func TestVerifC13OpenRace(t *testing.T) {
 		}
 		p.close()
 	}
+}
+
+// c13Sink is a connection that swallows what is written and never delivers anything
+type c13Sink struct {
+	closed chan struct{}
+	once   sync.Once
+	n      atomic.Int64
+}
+
+func (c *c13Sink) Write(p []byte) (int, error) { c.n.Add(1); return len(p), nil }
+func (c *c13Sink) Read(p []byte) (int, error)  { <-c.closed; return 0, io.EOF }
+func (c *c13Sink) Close() error                { c.once.Do(func() { close(c.closed) }); return nil }
+func (c *c13Sink) LocalAddr() net.Addr         { return &net.TCPAddr{IP: net.IPv4(127, 0, 0, 1), Port: 1} }
+func (c *c13Sink) RemoteAddr() net.Addr        { return &net.TCPAddr{IP: net.IPv4(127, 0, 0, 1), Port: 2} }
+func (c *c13Sink) SetDeadline(time.Time) error { return nil }
+func (c *c13Sink) SetReadDeadline(time.Time) error  { return nil }
+func (c *c13Sink) SetWriteDeadline(time.Time) error { return nil }
+
+// TestVerifC13CloseBulk: whether a close reaches the wire must not depend on the random draws inside it (length of the
+// closing frame's filler, padding of a stream's first frames): several hundred thousand closes of fresh streams on
+// healthy sessions, after 0-4 small writes; every Close must succeed and must have handed exactly one more record to
+// the connection. (The sweep above decodes every frame but is too slow for draws rarer than one in a few thousand.)
+func TestVerifC13CloseBulk(t *testing.T) {
+	log.SetOutput(io.Discard)
+	log.SetLevel(log.PanicLevel)
+	res := kit.NewResult()
+	defer func() { res.Save(true) }()
+	total := 480000
+	if kit.Thorough() {
+		total = 4000000
+	}
+	workers := runtime.GOMAXPROCS(0)
+	methods := []byte{EncryptionMethodPlain, EncryptionMethodAES256GCM, EncryptionMethodChaha20Poly1305, EncryptionMethodAES128GCM}
+	var wg sync.WaitGroup
+	var done atomic.Int64
+	for w := 0; w < workers; w++ {
+		wg.Add(1)
+		go func(w int) {
+			defer wg.Done()
+			rng := kit.NewRng(kit.Seed()*977 + int64(w))
+			for done.Load() < int64(total) && res.NumViolations() == 0 {
+				var key [32]byte
+				copy(key[:], rng.Bytes(32))
+				o, _ := MakeObfuscator(methods[w%4], key)
+				sesh := MakeSession(9, SessionConfig{Obfuscator: o, MsgOnWireSizeLimit: 16401, InactivityTimeout: time.Hour})
+				sink := &c13Sink{closed: make(chan struct{})}
+				sesh.AddConnection(sink)
+				for i := 0; i < 4000; i++ {
+					st, err := sesh.OpenStream()
+					if err != nil {
+						res.Note("OpenStream: %v", err)
+						break
+					}
+					nw := i % 5
+					for k := 0; k < nw; k++ {
+						st.Write([]byte{byte(k)})
+					}
+					before := sink.n.Load()
+					err = st.Close()
+					if err != nil || sink.n.Load() != before+1 {
+						res.Violate("close-frame-missing", fmt.Sprintf("Close of a fresh stream (after %d one-byte writes, method %d) on a healthy session: returned %v and handed %d records to the connection, want nil and exactly 1 (the closing frame)",
+							nw, methods[w%4], err, sink.n.Load()-before), map[string]any{"writes": nw, "method": methods[w%4], "err": fmt.Sprint(err)})
+						break
+					}
+					done.Add(1)
+				}
+				sesh.Close()
+			}
+		}(w)
+	}
+	wg.Wait()
+	res.Count(fmt.Sprintf("bulk-%d", total), true)
+	res.Stat("bulk_closes", done.Load())
 }
